@@ -1,7 +1,7 @@
 """C07 - exploration getters and lengths report exactly what is stored (DESIGN 4, C07)."""
 
 from .. import observers, world as W
-from .base import E1Check
+from .base import E1Check, closure_configs
 from .c01 import std_ops
 
 
@@ -18,6 +18,11 @@ class C07(E1Check):
 
     def bounds(self):
         return {"N": 3, "D": 4} if self.tier == "quick" else {"N": 4, "D": 5, "max_states": 40000}
+
+    def configs(self):
+        # the depth-bounded runs plus runs to the fixpoint within 2 stored points (histories of any length)
+        extra = closure_configs(("mem",)) if self.tier == "quick" else closure_configs(("mem", "csv"))
+        return super().configs() + extra
 
     def budget(self):
         return 600 if self.tier == "quick" else 3 * 3600
